@@ -199,7 +199,26 @@ class DirectMethod:
         return vertcat(self.opti.x, self.opti.p)
 
     def to_function(self, stage, name, args, results, *margs):
-        return self.opti.to_function(name, [stage.value(a) for a in args], results, *margs)
+        args = [stage.value(a) for a in args]
+        # Sub-stages transcribed with DirectCollocation have helper states; like set_initial on such a stage,
+        # a guess for the sampled states also initialises them (cf. DirectCollocation.to_function)
+        all_args = veccat(*args)
+        extra_vars, extra_init = [], []
+        for s in stage.iter_stages():
+            m = s._method
+            if isinstance(getattr(m, "Xc_vars", None), MX) and m.Xc_vars.numel()>0:
+                _, states = s.sample(s.x, grid='control')
+                if casadi.depends_on(all_args, states) and not casadi.depends_on(all_args, m.Xc_vars):
+                    extra_vars.append(m.Xc_vars)
+                    extra_init.append(m.Xc_vars0)
+        if len(extra_vars)==0:
+            return self.opti.to_function(name, args, results, *margs)
+        inner_margs = list(margs)
+        if len(margs)>0 and isinstance(margs[0], list) and np.all([isinstance(e,str) for e in margs[0]]):
+            inner_margs[0] = list(margs[0]) + ["Xc_vars_%d" % i for i in range(len(extra_vars))]
+        f = self.opti.to_function(name, args + extra_vars, results, *inner_margs)
+        f_args = f.mx_in()[:len(args)]
+        return casadi.Function(name, f_args, f.call(list(f_args) + extra_init, True, False), *margs)
 
     def fill_placeholders_integral(self, phase, stage, expr, *args):
         if phase==1:
